@@ -23,3 +23,23 @@ print("generated", "PostC15.v")
 import c10tool  # noqa: E402
 c10tool.main(os.path.join(C.SRC, "command_line.py"), os.path.join(C.COQ, "gen", "C10Tool.v"))
 print("generated", "C10Tool.v")
+# C13: _sphere.py (shorten constants, command sets, initial means, mu-law tables) -> Shorten.v
+import shorten  # noqa: E402
+shorten.main(os.path.join(C.SRC, "_sphere.py"), os.path.join(C.COQ, "gen", "Shorten.v"))
+print("generated", "Shorten.v")
+# C12: _sphere.py (G.711 tables, header constants / key dispatch / guards, in_type chain) -> Sphere.v
+import sphere  # noqa: E402
+sphere.main(os.path.join(C.SRC, "_sphere.py"), os.path.join(C.COQ, "gen", "Sphere.v"))
+print("generated", "Sphere.v")
+# C20: filters.py (window classes) + util.py (gauss_quant, Hz<->rad, circshift_fourier) -> WinHelp.v
+import winhelp  # noqa: E402
+winhelp.main(C.SRC, os.path.join(C.COQ, "gen", "WinHelp.v"))
+print("generated", "WinHelp.v")
+# C18: pre.py (Dither.apply, Preemphasize.apply) + torch.py (functional forms) -> Pre.v
+import pre as pre_c18  # noqa: E402
+pre_c18.main(os.path.join(C.SRC, "pre.py"), os.path.join(C.SRC, "torch.py"), os.path.join(C.COQ, "gen", "Pre.v"))
+print("generated", "Pre.v")
+# C17: post.py (Standardize.save / __init__ / _sanitize_stats) + util.py (read_signal dispatch, numpy readers) -> StatsIO.v
+import stats_io  # noqa: E402
+stats_io.main(C.SRC, os.path.join(C.COQ, "gen", "StatsIO.v"))
+print("generated", "StatsIO.v")
